@@ -70,6 +70,48 @@ def run(ctx):
         ctx.violation('impl-violation', input=j['text'], options=j['opts'], command=j['cmd'], variants=variants,
                       observed=dict(write_sequences=ws, outputs=outs), expected='same sequence of accepted inputs and byte-identical outputs',
                       how_to_replay='./check C18 --replay <file>')
+    # TIE-C for the hypothesis of seq_deterministic: the enumeration of proposals (every mutator, every node, in order)
+    # does not depend on the string hash seed
+    import os
+    import subprocess
+    import tempfile
+    import shutil
+    import concurrent.futures
+    import smtgen
+    nin = 60 if ctx.thorough else 16
+    d = tempfile.mkdtemp(prefix='verif-c18-', dir=e2e.SCRATCH_ROOT)
+    try:
+        files = []
+        for k in range(nin):
+            th = ['core', 'dt'] + [t for t in ['ints', 'bv', 'strings', 'fp', 'arrays', 'reals'] if rng.random() < 0.4]
+            g, cmds = smtgen.gen_script(rng, theories=th, nasserts=rng.choice([2, 3, 4]), depth=2)
+            fn = os.path.join(d, f'p{k}.smt2')
+            open(fn, 'w').write(smtgen.script_text(cmds))
+            files.append(fn)
+
+        def dump(args):
+            fn, seed = args
+            env = dict(os.environ, PYTHONPATH=os.path.join(common.VERIF, 'harness'), PYTHONHASHSEED=seed)
+            p = subprocess.run([common.PY, os.path.join(common.VERIF, 'harness', 'proposals.py'), fn], stdout=subprocess.PIPE,
+                               stderr=subprocess.DEVNULL, text=True, env=env, timeout=300)
+            return p.stdout
+        seeds = ['0', '1', '424242']
+        with concurrent.futures.ThreadPoolExecutor(max(2, common.NCPU // 2)) as ex:
+            outs = list(ex.map(dump, [(fn, sd) for fn in files for sd in seeds]))
+        nprops = 0
+        for k, fn in enumerate(files):
+            o = outs[3 * k:3 * k + 3]
+            nprops += o[0].count('\n')
+            ctx.case(['proposals', open(fn).read()], o[0].count('\n') > 10)
+            if not (o[0] == o[1] == o[2]):
+                a, b = (o[0].split('\n'), (o[1] if o[1] != o[0] else o[2]).split('\n'))
+                diff = next(((x, y) for x, y in zip(a, b) if x != y), (a[-1:], b[-1:]))
+                ctx.violation('impl-violation', input=open(fn).read(), options=['(proposal enumeration)'], command=[],
+                              observed=f'the order/content of proposals depends on PYTHONHASHSEED: {diff[0][:300]!r} vs {diff[1][:300]!r}',
+                              expected='identical proposal lists for every hash seed')
+        ctx.count('proposals enumerated under 3 hash seeds', nprops)
+    finally:
+        shutil.rmtree(d, ignore_errors=True)
     ctx.extra['runs'] = len(runs)
     ctx.assumptions += ['deterministic command depending on the token sequence only',
                         'known finding F18 (fresh-variable names derived from node identities) is recognised by renaming x<id>__fresh tokens']
